@@ -44,7 +44,6 @@ impl Pools {
 pub fn feed(w: &mut Worker2, s: &mut Session, evs: &[SEv], rep: &mut Report, what: &str) -> Vec<Step> {
     let mut out = Vec::with_capacity(evs.len());
     for e in evs {
-        KEYCHARS.with(|_| ());
         let st = s.step(w, e);
         rep.evaluations += 1;
         let same = if s.phonetic { st.imp == st.model } else { fixed_equiv(&st.imp, &st.model) };
